@@ -161,6 +161,9 @@ func c06Run(c *core.Ctx, k c06Case) {
 			{Attribute: saml.Attribute{Name: "Given-Name", NameFormat: "urn:oasis:names:tc:SAML:2.0:attrname-format:unspecified"}},
 			{Attribute: saml.Attribute{Name: "urn:oid:2.5.4.4", NameFormat: "urn:oasis:names:tc:SAML:2.0:attrname-format:uri"}},
 			{Attribute: saml.Attribute{Name: "uid", NameFormat: "urn:oasis:names:tc:SAML:2.0:attrname-format:basic"}},
+			// requested attributes may list acceptable values in the SP's metadata; those are the SP's wishes, not the user's data
+			{Attribute: saml.Attribute{Name: "user-id", NameFormat: "urn:oasis:names:tc:SAML:2.0:attrname-format:basic", Values: []saml.AttributeValue{{Type: "xs:string", Value: "⟨M.metadata-listed-value-1⟩"}, {Type: "xs:string", Value: "⟨M.metadata-listed-value-2⟩"}}}},
+			{Attribute: saml.Attribute{Name: "surname", FriendlyName: "sn", NameFormat: "urn:oasis:names:tc:SAML:2.0:attrname-format:unspecified", Values: []saml.AttributeValue{{Type: "xs:string", Value: "⟨M.metadata-listed-surname⟩"}}}},
 			{Attribute: saml.Attribute{Name: "unknown-thing", NameFormat: "urn:oasis:names:tc:SAML:2.0:attrname-format:basic"}},
 		}}}
 	}
